@@ -155,6 +155,9 @@ def inputs_for(prop, tier):
                     items.append({"policy": policy, "pattern": pattern, "interval_ms": interval, "jitter": jitter, "observe": 3 if pattern in ("frag", "dead") and policy == "always" else 4})
         for interval in (60, 120) if q else (40, 60, 120, 250):
             items.append({"pattern": "sync", "interval_ms": interval, "observe": 10})
+            items.append({"pattern": "sync-busy", "interval_ms": interval, "observe": 8})
+        for interval, jitter in ((150, 0.0), (200, 0.3)):
+            items.append({"policy": "always", "pattern": "frag-fault", "interval_ms": interval, "jitter": jitter, "observe": 5})
     return items
 
 
